@@ -3,3 +3,4 @@ import PflDrv.FA
 import PflDrv.CFG
 import PflDrv.PDA
 import PflDrv.FST
+import PflDrv.Indexed
